@@ -304,7 +304,8 @@ def _manager_connect(ctx, R, roles, T):
         d = m.get("data")
         okd = d is not None and d[0] == "CONCAT" and len(d) == 3 and d[2] == ("c", b"\0")
         if okd:
-            alts = set(d[1][1]) if d[1][0] == "phi" else {d[1]}
+            from ..terms import alts_of
+            alts = alts_of(d[1])
             for a in alts:
                 inner = a
                 if a[0] == "call" and a[1] in ("builtins.bytearray", "builtins.bytes") and a[2]:
